@@ -374,7 +374,9 @@ class Contract:
         self.requires = list(getattr(cls, "requires", []))
         ens = getattr(cls, "ensures", {})
         self.ensures = dict(ens)
-        self.raises = dict(getattr(cls, "raises", {}))
+        self.raises = dict(getattr(cls, "raises", {}))             # exception <=> condition
+        self.may_raise = dict(getattr(cls, "may_raise", {}))       # exception => condition (allowed, not required)
+        self.raise_args = getattr(cls, "raise_args", None)        # constructor arguments of a modularly raised exception
         self.result = getattr(cls, "result", None)          # TSpec or callable(bound, mk) for modular calls
         self.inline = getattr(cls, "inline", False)
         self.trusted = getattr(cls, "trusted", False)       # contract assumed, body not verified
@@ -519,7 +521,12 @@ class Contract:
                 interp.in_raise_branch -= 1
             if taken:
                 cls = self._exc_class(interp, f, exc_name)
-                raise X.PyRaise(X.Obj(cls, {"args": (f"<{exc_name} from {self.key}>",), "_modular": True}), interp.lineno)
+                if self.raise_args is not None and isinstance(cls, X.RepoClass):
+                    exc = interp.instantiate(cls, list(self.raise_args(interp, bound)), {})
+                    exc.attrs["_modular"] = True
+                else:
+                    exc = X.Obj(cls, {"args": (f"<{exc_name} from {self.key}>",), "_modular": True})
+                raise X.PyRaise(exc, interp.lineno)
         if self.result is None:
             res = None
         elif isinstance(self.result, TSpec):
@@ -642,7 +649,20 @@ def _fftindex(i, n):
 forall._wants_interp = True
 forall_real._wants_interp = True
 
+def arr_eq(a, b):
+    """two arrays are the same array value: equal shapes and equal elements at a generic index (ensures only: the
+    generic index is a fresh free constant, so proving the clause proves it for every index)"""
+    if not isinstance(a, SArr) or not isinstance(b, SArr):
+        return a is b
+    if a.ndim != b.ndim:
+        return False
+    idx = tuple(Sym(z3.Int(V.fresh_name("gidx"))) for _ in range(a.ndim))
+    rng = V.sand(*[V.sand(i >= 0, i < s_) for i, s_ in zip(idx, a.shape)]) if a.ndim else True
+    return V.sand(shape_eq(a, b), V.implies(rng, V.compare("==", a.at(idx), b.at(idx))))
+
+
 HELPERS = {
+    "arr_eq": arr_eq,
     "close": lambda a, b, tol=None: V.compare("==", a, b),
     "forall": forall, "forall_real": forall_real, "implies": V.implies, "ite": V.ite, "shape_eq": shape_eq,
     "fftindex": _fftindex, "trunc": V.trunc, "floor": V.floor_, "ceil": V.ceil_, "iff": lambda a, b: V.compare("==", a, b)
